@@ -519,7 +519,7 @@ class Engine:
                 seen.add(z3.simplify(z3.substitute(a, *sub)).as_long())
             vals = sorted(seen); filtered = False
         else:
-            vals = [v for v, _ in s.feasible_values(st, a, 512)]; filtered = True
+            return s.load_table(st, a, n, o0, v0)
         good = []; bad = []
         for v in vals:
             q = st.find(v)
@@ -547,6 +547,35 @@ class Engine:
         e = simp(e)
         if cacheable: s.tabcache[key] = (a, e)
         return e
+
+    def load_table(s, st, a, n, o, v0):
+        """Read n bytes of constant object o at symbolic address a (wide index expression): one bounds query, a stride
+        probe, then an if-then-else term over every in-bounds slot of that stride."""
+        lo = o.base; hi = o.base + o.size - n
+        oob = z3.Or(z3.ULT(a, lo), z3.UGT(a, hi))
+        if s.sat(st.pc, oob):
+            st.pc.append(oob); st.model = s.last_model
+            bad = s.last_model.eval(a, model_completion=True).as_long()
+            s.resolve_addr(st, bad, n, False)      # raises if it is not inside another live object
+            raise Inconclusive('table index reaches a second object')
+        stride = 1
+        for cand in (16, 8, 4, 2):
+            r = (v0 - lo) % cand
+            if cand <= o.size and not s.sat(st.pc, z3.URem(a - lo, cand) != r):
+                stride = cand; break
+        r = (v0 - lo) % stride
+        slots = list(range(r, o.size - n + 1, stride))
+        if len(slots) > 8192: raise Inconclusive('constant table with %d candidate slots' % len(slots))
+        byval = {}
+        for off in slots:
+            x = int.from_bytes(bytes(o.b[off:off + n]), 'little')
+            byval.setdefault(x, []).append(lo + off)
+        items = sorted(byval.items(), key=lambda kv: -len(kv[1]))
+        w = 8 * n
+        e = z3.BitVecVal(items[0][0], w)
+        for val_, addrs in items[1:]:
+            e = z3.If(z3.Or(*[a == x for x in addrs]) if len(addrs) > 1 else a == addrs[0], z3.BitVecVal(val_, w), e)
+        return simp(e)
 
     def store_sym(s, st, a, n, v):
         return s.store_bytes(st, need_int(st, a), n, v)
